@@ -19,6 +19,19 @@ fn idents(sql: &str, q: char) -> Vec<String> {
     out
 }
 
+/// an Iden whose `unquoted` emits its name one character at a time (e.g. a lower-casing implementor)
+#[derive(Clone)]
+struct CharWise(String);
+impl Iden for CharWise {
+    fn unquoted(&self, s: &mut dyn std::fmt::Write) { for c in self.0.chars() { s.write_char(c).unwrap(); } }
+}
+/// an Iden that writes a prefix character and the name through one format call
+#[derive(Clone)]
+struct Prefixed(String);
+impl Iden for Prefixed {
+    fn unquoted(&self, s: &mut dyn std::fmt::Write) { let mut it = self.0.chars(); if let Some(c) = it.next() { write!(s, "{}{}", c, it.as_str()).unwrap(); } }
+}
+
 fn stmts(name: &str) -> Vec<(&'static str, [String; 3])> {
     let a = || Alias::new("t");
     let c = || Alias::new("c");
@@ -32,6 +45,9 @@ fn stmts(name: &str) -> Vec<(&'static str, [String; 3])> {
     schema_ms!("foreign key create name", ForeignKey::create().name(name).from(a(), c()).to(Alias::new("u"), c()).to_owned());
     schema_ms!("foreign key drop name", ForeignKey::drop().name(name).table(a()).to_owned());
     query!("column", Query::select().column(Alias::new(name)).from(a()).to_owned());
+    query!("column (char-wise Iden)", Query::select().column(CharWise(name.to_string())).from(a()).to_owned());
+    query!("table (prefixed Iden)", Query::select().column(c()).from(Prefixed(name.to_string())).to_owned());
+    schema!("table drop (char-wise Iden)", Table::drop().table(CharWise(name.to_string())).to_owned());
     query!("table", Query::select().column(c()).from(Alias::new(name)).to_owned());
     query!("schema.table alias", Query::select().column(c()).from_as((Alias::new(name), a()), Alias::new(name)).to_owned());
     query!("expr alias", Query::select().expr_as(Expr::col(c()), Alias::new(name)).from(a()).to_owned());
@@ -58,7 +74,7 @@ pub fn check_one(name: &str) -> Option<Witness> {
 pub fn search(_obl: &str) -> Vec<Witness> {
     std::panic::set_hook(Box::new(|_| {}));
     let mut found = vec![];
-    let alpha = ['a', '"', '`', ' ', ';', '\'', 'é'];
+    let alpha = ['a', '"', '`', ' ', ';', '\'', 'é', '\u{122}', '\u{160}', '\u{2022}'];
     crate::util::strings(&alpha, 3, |s| {
         if s.is_empty() { return false; }
         if let Ok(Some(w)) = std::panic::catch_unwind(|| check_one(s)) { found.push(w); }
